@@ -1,0 +1,114 @@
+//go:build verif
+
+// Copyright 2026 The Scriggo Authors. All rights reserved.
+// Use of this source code is governed by a BSD-style
+// license that can be found in the LICENSE file.
+
+package compiler
+
+import (
+	"fmt"
+
+	"github.com/open2b/scriggo/ast"
+)
+
+// Verification hooks for property C27 (printing a parsed tree gives source
+// that parses back to the same tree). Compiled only with the "verif" build
+// tag. Add-only: every function calls the real lexer and parser.
+
+// VerifC27ParseExpr parses src as a single expression with the real
+// parseExpr. If template is true src is scanned with the template lexer as
+// the content of "{{ src }}", otherwise with the program lexer. The whole
+// source must be consumed by the expression, otherwise an error is returned.
+func VerifC27ParseExpr(src string, template bool) (expr ast.Expression, err error) {
+	var lex *lexer
+	if template {
+		lex = scanTemplate([]byte("{{"+src+"}}"), ast.FormatText, false)
+	} else {
+		lex = scanProgram([]byte(src))
+	}
+	defer func() {
+		lex.Stop()
+		if r := recover(); r != nil {
+			expr = nil
+			if e, ok := r.(*SyntaxError); ok {
+				err = e
+			} else if e, ok := r.(error); ok {
+				err = fmt.Errorf("panic: %w", e)
+			} else {
+				err = fmt.Errorf("panic: %v", r)
+			}
+		}
+	}()
+	p := &parsing{lex: lex}
+	tok := p.next()
+	if template {
+		if tok.typ != tokenLeftBraces {
+			return nil, fmt.Errorf("unexpected %s, expecting {{", tok)
+		}
+		tok = p.next()
+	}
+	expr, tok = p.parseExpr(tok, false, false, false, false)
+	if expr == nil {
+		return nil, fmt.Errorf("unexpected %s, expecting expression", tok)
+	}
+	if template {
+		if tok.typ != tokenRightBraces {
+			return nil, fmt.Errorf("unexpected %s after expression, expecting }}", tok)
+		}
+		tok = p.next()
+	} else if tok.typ == tokenSemicolon && tok.txt == nil {
+		tok = p.next()
+	}
+	if tok.typ != tokenEOF {
+		return nil, fmt.Errorf("unexpected %s after expression, expecting EOF", tok)
+	}
+	return expr, nil
+}
+
+// VerifC27Tokens scans src as VerifC27ParseExpr does and returns, for every
+// token of the expression (the enclosing "{{" and "}}", the automatically
+// inserted semicolon and EOF excluded), the name of its type and its text.
+func VerifC27Tokens(src string, template bool) (types []string, texts []string, err error) {
+	var lex *lexer
+	if template {
+		lex = scanTemplate([]byte("{{"+src+"}}"), ast.FormatText, false)
+	} else {
+		lex = scanProgram([]byte(src))
+	}
+	defer lex.Stop()
+	first := true
+	for tok := range lex.Tokens() {
+		if template && first {
+			first = false
+			if tok.typ == tokenLeftBraces {
+				continue
+			}
+		}
+		if tok.typ == tokenEOF || template && tok.typ == tokenRightBraces {
+			continue
+		}
+		if tok.typ == tokenSemicolon && tok.txt == nil {
+			continue
+		}
+		types = append(types, tok.typ.String())
+		texts = append(texts, string(tok.txt))
+	}
+	if lex.err != nil {
+		return nil, nil, lex.err
+	}
+	return types, texts, nil
+}
+
+// VerifC27ParseProgramSource parses src as a program file with the real
+// parser (parseSource); noPackage is as in parseSource.
+func VerifC27ParseProgramSource(src []byte, noPackage bool) (*ast.Tree, error) {
+	return parseSource(src, noPackage)
+}
+
+// VerifC27ParseTemplateSource parses src as an unexpanded template file
+// with the real parser (ParseTemplateSource).
+func VerifC27ParseTemplateSource(src []byte, format ast.Format) (*ast.Tree, error) {
+	tree, _, err := ParseTemplateSource(src, format, false, false)
+	return tree, err
+}
